@@ -543,6 +543,12 @@ func runC19(c *Ctx) {
 		c.check(v.int()&0o700 == 0o700, RM, construct, c.P.Pos(fc.call.Pos()), fmt.Sprintf("mode %#o", v.int()),
 			fmt.Sprintf("the data directory is created with mode %#o: without owner search/write permission it cannot be used by the store that follows", v.int()))
 	}
+	// "a missing directory is created and then usable": with all its missing parents
+	for _, fc := range calls {
+		if fc.name == "os.Mkdir" {
+			c.bad(RM, fc.d.name+"#Mkdir", c.P.Pos(fc.call.Pos()), "the data directory is created with os.Mkdir, which creates the last path element only: a configured directory whose parent is missing as well cannot be created and the store fails")
+		}
+	}
 	c.floor(RM, 1, "one MkdirAll in Store")
 
 	storeGuards(c)
@@ -1155,6 +1161,7 @@ func errValPropagates(fn *ssa.Function, errVal ssa.Value) (bool, string) {
 func runC20(c *Ctx) {
 	c.assume("rename(2) within one directory is atomic with respect to process death, and a killed process does not tear an already renamed file")
 	c.notDecided("kernel and file-system behaviour; durability across power loss (fsync) is not part of the statement")
+	oneEntryPerDocument(c)
 	const R1 = "no-inplace-write"
 	c.rule(R1, "no call that opens a file for writing (os.WriteFile, os.Create, os.OpenFile, os.Truncate) in pkg/storage receives the final entry path")
 	calls := storageFsCalls(c, R1)
@@ -1633,5 +1640,33 @@ func entryNeverRemoved(c *Ctx, calls []fsCall) {
 	}
 	if n == 0 {
 		c.okTrivial(R, "none", "-", "the storage code removes nothing")
+	}
+}
+
+
+// oneEntryPerDocument: the replace protocol makes one rename the moment a document changes. A
+// document spread over several entries (Store calling Store for a part, Retrieve assembling the
+// result from a second entry) changes in several moments: a crash between them leaves one part new
+// and the other old, and Retrieve returns the mixture without an error.
+func oneEntryPerDocument(c *Ctx) {
+	const R = "one-entry-per-document"
+	c.rule(R, "neither Store nor Retrieve of the filesystem backend reaches a call of Store or Retrieve (itself or the other) on the static call paths inside pkg/storage: a document is one entry, published by one rename and read from one file")
+	for _, name := range []string{storeFn, retrieveFn} {
+		d := c.decl(R, name)
+		if d == nil {
+			continue
+		}
+		bad := ""
+		var pos token.Pos
+		for _, dd := range pkgFilter(c.reachDecls(R, name), "storage.") {
+			for _, cs := range callsIn(dd.pkg, dd.fd.Body) {
+				cn := objName(cs.callee)
+				if cn == storeFn || cn == retrieveFn {
+					bad, pos = dd.name+" calls "+cn, cs.call.Pos()
+				}
+			}
+		}
+		c.check(bad == "", R, name, c.P.Pos(pos), "one entry, one rename, one read",
+			fmt.Sprintf("%s: %s — the document is kept in more than one entry, each replaced on its own: a crash between the replacements leaves entries of different versions, and the retrieved document mixes them", name, bad))
 	}
 }
